@@ -53,6 +53,19 @@ Put(row) ==
   /\ ret' = [op |-> "put", ok |-> ok, rows |-> <<>>]
   /\ UNCHANGED <<schema, disk, gen>>
 
+\* INSERT of two rows in one statement, the first of which (g) is a row the table accepts: both rows are stored or - when the
+\* second one is refused - neither is, and the statement reports the error (a statement is validated as a whole before
+\* its first row is stored: whatever makes a row unacceptable must be seen by that validation, not only by the store)
+PutTwo(g, row) ==
+  LET ok == Accept(schema, g) /\ Accept(schema, row)
+      two == <<Stamp(g, nmut + 1), Stamp(row, nmut + 1)>> IN
+  /\ nmut' = nmut + 1
+  /\ warm' = TRUE
+  /\ IF ok THEN /\ abs' = abs \o two /\ mem' = Load \o two /\ dirty' = TRUE
+           ELSE /\ abs' = abs /\ mem' = Load /\ dirty' = dirty
+  /\ ret' = [op |-> "put", ok |-> ok, rows |-> <<>>]
+  /\ UNCHANGED <<schema, disk, gen>>
+
 \* a row after SET: set is a function from some column numbers to values
 Override(row, set, k) ==
   [i \in 1..Len(row) |-> IF i \in DOMAIN set
